@@ -369,34 +369,31 @@ func (j *judge) peer(pi int, ps *c10gen.PeerSpec, pr c10rt.PeerReport) {
 			continue
 		}
 		// an unregistered name
-		switch pb.Phase {
-		case "A":
-			if pb.Kind == "call" && pb.Code != erpc.CodeNotFound {
-				j.v(scen, pclass, "not-404", fmt.Sprintf("%s mapper: CALL %q is not registered and no unknown-handler is set, the caller got status %d %q result %q instead of 404", j.mapper, pb.Name, pb.Code, pb.Msg, pb.Result), w)
+		unknownSet := pb.Phase == "B" || pb.Phase == "S" || (pb.Phase == "C" && pb.Kind == "call")
+		if !unknownSet {
+			if len(uEv) > 0 { // only possible in phase C: the unknown-CALL-handler answered a push
+				j.v(scen, pclass, "call-push-namespace-shared", fmt.Sprintf("%s mapper: %s %q is not registered and only an unknown-%s-handler is set, but unknown-handler %s (%s) ran", j.mapper, strings.ToUpper(pb.Kind), pb.Name, other, uEv[0].Tag, uEv[0].Kind), w)
+			} else if pb.Kind == "call" && pb.Code != erpc.CodeNotFound {
+				j.v(scen, pclass, "not-404", fmt.Sprintf("%s mapper: CALL %q is not registered and no unknown-call-handler is set, the caller got status %d %q result %q instead of 404", j.mapper, pb.Name, pb.Code, pb.Msg, pb.Result), w)
 			}
-			if len(uEv) > 0 {
-				j.incon = append(j.incon, "unknown-handler event in phase A")
+			continue
+		}
+		want := "ucall"
+		if pb.Kind == "push" {
+			want = "upush"
+		}
+		ok := len(uEv) == 1 && uEv[0].Kind == want && uEv[0].Tag == utag
+		if ok && pb.Kind == "call" && (pb.Code != 0 || pb.Result != utag) {
+			ok = false
+		}
+		if !ok {
+			how := "on the peer"
+			pc := pclass
+			if pb.Phase == "S" {
+				how = fmt.Sprintf("through SubRoute%q.ToRouter()", ps.UnknownGroup)
+				pc = pb.Kind // the identifier pattern is irrelevant for where the unknown-handler was set
 			}
-		default:
-			want := "ucall"
-			if pb.Kind == "push" {
-				want = "upush"
-			}
-			ok := len(uEv) == 1 && uEv[0].Kind == want && uEv[0].Tag == utag
-			if ok && pb.Kind == "call" && (pb.Code != 0 || pb.Result != utag) {
-				ok = false
-			}
-			if !ok {
-				how := "on the peer"
-				if pb.Phase == "S" {
-					how = fmt.Sprintf("through SubRoute%q.ToRouter()", ps.UnknownGroup)
-				}
-				pc := pclass
-				if pb.Phase == "S" {
-					pc = pb.Kind // the identifier pattern is irrelevant for where the unknown-handler was set
-				}
-				j.v(scen, pc, "unknown-handler-not-reached", fmt.Sprintf("%s mapper: %s %q is not registered and an unknown-%s-handler was set %s, but it ran %d times (caller status %d %q)", j.mapper, strings.ToUpper(pb.Kind), pb.Name, pb.Kind, how, len(uEv), pb.Code, pb.Msg), w)
-			}
+			j.v(scen, pc, "unknown-handler-not-reached", fmt.Sprintf("%s mapper: %s %q is not registered and an unknown-%s-handler was set %s, but it ran %d times (caller status %d %q)", j.mapper, strings.ToUpper(pb.Kind), pb.Name, pb.Kind, how, len(uEv), pb.Code, pb.Msg), w)
 		}
 	}
 	// the names of a registration and its handlers correspond one to one
@@ -665,8 +662,14 @@ func runProgram(item, index int, harness, repo string) {
 	j.finish(id, desc, sig)
 }
 
+var saved = map[string]bool{}
+
 // saveProgram keeps the source of a program that matters in the driver's out directory (cwd).
 func saveProgram(p *c10gen.Program, why string) {
+	if saved[why] {
+		return
+	}
+	saved[why] = true
 	d := fmt.Sprintf("prog%03d_%s", p.Index, why)
 	for rel, src := range p.Files {
 		f := filepath.Join(d, rel)
